@@ -76,6 +76,9 @@ def check(ctx):
     b = [qn for qn, f in model.module(EMG).functions() if "_is_numeric_cast_type(dtype)" in unparse(f) and "np.float64" in unparse(f)]
     ctx.ob("ALG.partition-function.same-normalisation", f"{ESH}::<module>", "shuffle and merge transfer both hash numeric keys as float64", bool(a) and bool(b))
     T.argpos(ctx, lambda p: p == ESH, "c40", floor=15)
+    from ._claims import check_claims
+
+    check_claims(ctx)
 
 
 VARIANTS = [
